@@ -111,7 +111,8 @@ Definition node_ok (i s : tree) : Prop :=
   loose i = true \/
   (t_kind i = t_kind s /\
    (var_placeholder i = true \/
-    exists ig, incl ig (allowed_ignores (t_kind i)) /\ fields_ok (t_kind i) ig (t_flds i) (t_flds s) = true)).
+    exists ig, incl ig (allowed_ignores (t_kind i)) /\ List.length (t_flds i) = List.length (t_flds s) /\
+               fields_ok (t_kind i) ig (t_flds i) (t_flds s) = true)).
 
 Ltac kind_case k :=
   let E := fresh "E" in destruct (String.eqb _ k) eqn:E; [apply String.eqb_eq in E|].
@@ -120,7 +121,7 @@ Lemma main_node_ok i s meta ig b :
   shallow_main i s meta ig = Some b -> incl ig (allowed_ignores (t_kind i)) ->
   In (t_id i, t_id s) (pairs b) /\ node_ok i s.
 Proof.
-  intros H Hig. apply shallow_main_spec in H. destruct H as (-> & Hk & _ & _ & Hf).
+  intros H Hig. apply shallow_main_spec in H. destruct H as (-> & Hk & Hl & _ & Hf).
   split; [left; reflexivity|]. right. split; [exact Hk|]. right. exists ig. auto.
 Qed.
 
@@ -312,15 +313,35 @@ Qed.
 (* (3) ONE map witnesses the whole tree: every pattern node (outside statement holes and placeholders' inside)
    is paired; its partner passes the node test; partners of children are direct children of the partner, at
    strictly increasing positions (either order under + and * ) *)
+(* an expression statement whose value is ___ or __n__ stands for a whole statement *)
+Definition is_stmt_hole (i : tree) : bool :=
+  String.eqb (t_kind i) "Expr" &&
+  match t_kids i with
+  | v :: _ => String.eqb (t_kind v) "Name" &&
+              match fld_str "id" (t_flds v) with Some n => is_exp n || is_wild n | None => false end
+  | [] => false
+  end.
+
+Lemma hole_is_stmt_hole i s meta r m : expr_hole i s meta = Some r -> In m r -> is_stmt_hole i = true.
+Proof.
+  unfold expr_hole, is_stmt_hole. intros H Hin. destruct (String.eqb (t_kind i) "Expr"); [|discriminate].
+  destruct (metas i s meta); [|inversion H; subst; contradiction].
+  destruct (t_kids i) as [|v ?]; [discriminate|]. destruct (String.eqb (t_kind v) "Name"); [|discriminate].
+  destruct (fld_str "id" (t_flds v)) as [n|]; [|discriminate].
+  destruct (is_exp n); [reflexivity|]. destruct (is_wild n); [reflexivity|discriminate].
+Qed.
+
 Inductive Wit (m : amap) : tree -> tree -> Prop :=
-| W_hole i s : In (t_id i, t_id s) (pairs m) -> t_kind i = "Expr" -> Wit m i s
+| W_hole i s : In (t_id i, t_id s) (pairs m) -> is_stmt_hole i = true -> Wit m i s
 | W_flex i s il iop ir sl sop sr (swap : bool) :
+    is_flex i = true ->
     In (t_id i, t_id s) (pairs m) -> node_ok i s ->
     t_kids i = [il; iop; ir] -> t_kids s = [sl; sop; sr] ->
     In (t_id iop, t_id sop) (pairs m) -> node_ok iop sop ->
     Wit m il (if swap then sr else sl) -> Wit m ir (if swap then sl else sr) ->
     Wit m i s
 | W_node i s :
+    is_flex i = false ->
     In (t_id i, t_id s) (pairs m) -> node_ok i s ->
     WitKids m (t_kind i) (t_kids s) (t_kids i) 0 ->
     Wit m i s
@@ -355,7 +376,7 @@ Proof.
   intros H.
   induction H using Emb_mut with
     (P0 := fun meta ik sk ics acc lo m (_ : Kids meta ik sk ics acc lo m) => WitKids m ik sk ics lo).
-  - apply W_hole; [|eapply hole_kind; eassumption].
+  - apply W_hole; [|eapply hole_is_stmt_hole; eassumption].
     destruct (hole_maps _ _ _ _ _ e i0) as (Hp & _). rewrite Hp. left. reflexivity.
   - destruct (shallow_node_ok _ _ _ _ e1) as [Hp Hok]. destruct (shallow_node_ok _ _ _ _ e4) as [Hpo Hoko].
     eapply (W_flex _ i s il iop ir sl sop sr swap); eauto.
